@@ -175,9 +175,15 @@ class FakeSocket(object):
             st.server.on_client_write()
 
     def recv_into(self, buf, count=0):
-        data = self._recv(count or len(buf))
+        size = len(buf)
+        if count and count > size:
+            if not self._st.tls:
+                # what a kernel socket does
+                raise ValueError('buffer too small for requested bytes')
+            count = size        # what the ssl module does
+        data = self._recv(count or size)
         n = len(data)
-        buf[:n] = data
+        memoryview(buf)[:n] = data
         return n
 
     def recv(self, count):
@@ -211,6 +217,10 @@ class FakeSocket(object):
             if not st.tls_buf:
                 if st.inq:
                     st.tls_buf = st.inq.popleft()
+                    if st.conn is not None and st.conn.tls_readahead:
+                        # a TLS layer that decrypts everything it has read
+                        while st.inq:
+                            st.tls_buf += st.inq.popleft()
                 elif st.in_rst or st.dead:
                     raise OSError(errno.ECONNRESET, 'Connection reset by peer')
                 else:
@@ -250,6 +260,8 @@ class FakeSocket(object):
         st = self._st
         if not st.tls:
             raise AttributeError('pending')
+        if st.tls_buf:
+            st.world.probe('tls_pending_nonzero')
         return len(st.tls_buf)
 
     def __getattribute__(self, name):
@@ -613,6 +625,7 @@ class ConnSpec(object):
         self.proxy = d.get('proxy')
         self.faults = d.get('faults') or []
         self.short_reads = d.get('short_reads') or {}
+        self.tls_readahead = bool(d.get('tls_readahead'))
         self.used_sockets = []
         self.n_poll = 0
         self.host = self.port = None
